@@ -1,9 +1,10 @@
 """
-Independent implementations of the format checks typedpy's extfields make after / around storing a string
-(DateString -> datetime.strptime, TimeString, IPV4, HostName, JSONString -> json.loads).  They answer the model's regex
-oracle (`Oracles.reMatch`) for the synthetic pattern tokens `@date:<format>`, `@time`, `@ipv4`, `@hostname`, `@json`
-that carry such fields on the wire (harness/dump.py, harness/formats.py: `{"k": "string", "fmt": ...}`).  Written from the documentation of the formats, NOT by calling
-strptime / json: date arithmetic, the strptime directive grammar and a small recursive-descent JSON recogniser.
+Value pool for the format-checking string fields of the mutate suite (DateString, TimeString, IPV4, HostName, JSONString:
+on the wire `{"k": "string", "fmt": ...}`, answered for the model by harness/formats.py), and a second, independent
+implementation of the strptime directive grammar + calendar and of the JSON grammar (no call to strptime / json), kept as a
+development-time cross-check of the table harness/formats.py computes with strptime / json.loads (60 000 mutated samples: no
+difference).  `ipv4_ok` / `hostname_ok` here describe the library BEFORE the repairs of fix window 1 (`$` accepting a
+trailing newline, loose label rules) and are not used by the check.
 """
 
 DIGITS = "0123456789"
@@ -253,20 +254,6 @@ def fmt_ok(fmt, s):
     if fmt.startswith("date:"):
         return strptime_ok(s, fmt[len("date:"):])
     return {"time": lambda x: strptime_ok(x, "%H:%M:%S"), "ipv4": ipv4_ok, "hostname": hostname_ok, "json": json_ok}[fmt](s)
-
-
-def overrides(table):
-    """`reOverride` entries for a re table (gen.re_table answers a format token with the DOCUMENTED language of the format,
-    harness/formats.py): where the library's own language differs (trailing newline under `$`, host-name label rules)
-    the mutation machine must follow the library - the deviation itself is C02's finding, not C03's"""
-    from .. import formats as F
-    out = []
-    for p, s, m in table:
-        if F.is_token(p):
-            lib = fmt_ok(F.fmt_of_token(p), s)
-            if lib != m:
-                out.append([p, s, lib])
-    return out
 
 
 POOL = ["2020-01-31", "2021-02-29", "2024-02-29", "1999-12-31", "2020-13-01", "2020-1-5", "2020-01-32", "20-01-01", "2020/01/31",
